@@ -641,6 +641,8 @@ class ReconnH(explore.Harness):
         return out
 
     def canon(self):
+        from vt.canon import tasks_sig as _tasks_sig
+
         c = self.conn
         timers = tuple(sorted(round(h._when - self.loop.time(), 6) for h in self.loop._scheduled if not h._cancelled))
         interval = None
@@ -653,7 +655,7 @@ class ReconnH(explore.Harness):
             type(c._last_connector_error).__name__, c._connector.done() if c._connector else None,
             tuple((x.client_open, x.peer_open) for x in self.net.conns if x.client_open or x.peer_open),
             tuple(a.get("hang", False) for a in self.net.pending()), tuple((k["task"].done(), round(self.loop.time() - k["t0"], 6)) for k in self.callers if not k["task"].done()),
-            self.pairing._shutdown, self.closed_at is not None, tuple(self.cur_hosts), self.pairing.supports_subscribe,
+            self.pairing._shutdown, self.closed_at is not None, tuple(self.cur_hosts), self.pairing.supports_subscribe, _tasks_sig(self.loop),
         )
 
     def outcome(self):
